@@ -27,7 +27,9 @@
 //! injected *after* it was applied (before the call returns) counts as applied; both are generated.
 
 mod agent;
+mod late;
 mod mini;
+mod opt;
 mod store;
 
 use agent::{m1_key, make_agent, Act, PEv, Shared, Snap, K};
@@ -1706,5 +1708,11 @@ fn main() {
     let n_twin = (ctx.pick(40_000u64, 1_000_000) * scale / 100).max(16);
     let twin_ops = ctx.pick(30, 50);
     ctx.prop("twin-items", n_twin, move || mini::arb_mini(twin_ops), mini::check);
+    // lanes whose values can serialise to the empty byte string (Option<i64>)
+    let n_opt = (ctx.pick(25_000u64, 600_000) * scale / 100).max(16);
+    ctx.prop("optional-values", n_opt, move || opt::arb_opt(twin_ops), opt::check);
+    // a persistent value lane registered after the agent has started (raw `Agent` implementation)
+    let n_late = (ctx.pick(40_000u64, 1_000_000) * scale / 100).max(16);
+    ctx.prop("late-lane", n_late, move || late::arb_late(twin_ops), late::check);
     ctx.finish();
 }
